@@ -28,20 +28,20 @@ func checks() map[string]CheckDef {
 	add(CheckDef{
 		ID: "C01", Level: "model_checking",
 		Runs: []HRun{
-			{Pkg: "internal/zzverif/c01", Func: "HarnessAddStep", Quick: [][]int64{{1, 0}, {2, 1}, {3, 0}}, Thorough: [][]int64{{1, 1}, {2, 2}, {3, 1}, {4, 0}, {5, 0}},
+			{Pkg: "internal/zzverif/c01", Func: "HarnessAddStep", Quick: [][]int64{{1, 0}, {2, 1}, {3, 0}, {4, 0}}, Thorough: [][]int64{{1, 1}, {2, 2}, {3, 1}, {4, 0}, {5, 0}},
 				Labels: []string{"C01/inv-preserved", "C01/frame", "C01/tip-is-greatest-work", "C01/rejected-submission-changes-nothing", "C01/new-row-fields"}},
 		},
-		Bounds: []string{"one Add from an arbitrary stored table of k rows satisfying INV-H (quick k<=3, thorough k<=5), every column of every row symbolic", "0..2 forbidden hashes", "difficulty bits of the submitted header from a menu of 6 encodings (zero, negative, maximal work, mainnet/regtest minimum, high exponent); work of stored headers: any non-negative integer", "heights < 2^30"},
+		Bounds: []string{"one Add from an arbitrary stored table of k rows satisfying INV-H (quick k<=4, thorough k<=5), every column of every row symbolic", "0..2 forbidden hashes", "difficulty bits of the submitted header from a menu of 6 encodings (zero, negative, maximal work, mainnet/regtest minimum, high exponent); work of stored headers: any non-negative integer", "heights < 2^30"},
 		Outside: []string{"stores with more rows than the bound (the step is uniform in the row count, but that is an argument, not a solver result)", "PostgreSQL (row order and plans are SQLite's)", "real SHA-256: the submitted header's hash is an arbitrary 256-bit value, parent links are assumed acyclic", "stored headers with zero work other than genesis (see known finding C01-F2)", "reachability of the symbolic pre-state through the public API (replay inserts the pre-state rows directly)"},
 		Stubs:  []string{"BlockHasher returns an arbitrary hash", "Notification records calls", "zerolog/metrics calls have no effect", "sqlx over the sqlm model of the SQL text with row order taken from EXPLAIN QUERY PLAN of the linked SQLite"},
 	})
 	add(CheckDef{
 		ID: "C02", Level: "model_checking",
 		Runs: []HRun{
-			{Pkg: "transports/http/endpoints/api/merkleroots", Func: "HarnessVerify", Quick: [][]int64{{2, 1}, {3, 2}}, Thorough: [][]int64{{3, 3}, {4, 2}, {5, 2}, {6, 1}},
+			{Pkg: "transports/http/endpoints/api/merkleroots", Func: "HarnessVerify", Quick: [][]int64{{2, 1}, {3, 2}, {4, 2}}, Thorough: [][]int64{{3, 3}, {4, 2}, {5, 2}, {6, 1}},
 				Labels: []string{"C02/verdict", "C02/overall-is-worst", "C02/block-hash", "C02/echo-in-order", "C02/store-untouched"}},
 		},
-		Bounds:  []string{"arbitrary INV-H store of k rows (quick k<=3, thorough k<=6), request lists of n items (quick n<=2, thorough n<=3), every root an arbitrary string, every height any int32, the configured excess any 64-bit int"},
+		Bounds:  []string{"arbitrary INV-H store of k rows (quick k<=4, thorough k<=6), request lists of n items (quick n<=2, thorough n<=3), every root an arbitrary string, every height any int32, the configured excess any 64-bit int"},
 		Outside: []string{"JSON binding of the request body and the gin handler shell (C16 covers the handler)", "'follows reorganisations' is the composition of this lemma (holds from every INV-H state) with C01 (Add maps INV-H to INV-H); the composition is an argument", "PostgreSQL"},
 		Stubs:   []string{"zerolog calls have no effect", "sqlx over the sqlm model"},
 	})
@@ -58,19 +58,19 @@ func checks() map[string]CheckDef {
 			{Pkg: "transports/http/endpoints/api/headers", Func: "HarnessMapHeader", Quick: [][]int64{{2}}, Thorough: [][]int64{{3}}, Labels: []string{"C04/header-response-carries-the-stored-fields", "C04/state-response-carries-the-stored-fields", "C04/list-response-keeps-length-and-order"}},
 			{Pkg: "transports/http/endpoints/api/tips", Func: "HarnessMapTip", Quick: [][]int64{{2}}, Thorough: [][]int64{{3}}, Labels: []string{"C04/tip-response-carries-the-stored-fields", "C04/tips-response-keeps-length-and-order"}},
 		},
-		Bounds:  []string{"arbitrary INV-H store of k rows (quick k=3, thorough k<=5), every column symbolic; query hash an arbitrary string (by-hash/state) or any ordered pair of distinct stored headers (ancestors); by-height: any height and count with |.| < 2^40; common-ancestor: every list of n stored-or-unknown hashes (quick k=3 n<=2, thorough k=4 n=2 and k=3 n=3; at k=5 the model meets an order-dependent read of an unordered CTE result and reports unsupported, so k=5 is not registered), on stores without a parent stored after its child", "no state outside the store: for each of the 9 routes under /api/v1/chain (enumerated from the routing table; auth off) one arbitrary request, then one arbitrary new header ingested through the same process, then the same request again - its answer (status and documents) equals that of a freshly assembled application over the same database; k=1 for every route and k=2 for the merkle-root listing and tips (quick), k=2 for every route and k=3 for those two (thorough)"},
+		Bounds:  []string{"arbitrary INV-H store of k rows (quick k<=4, thorough k<=5), every column symbolic; query hash an arbitrary string (by-hash/state) or any ordered pair of distinct stored headers (ancestors); by-height: any height and count with |.| < 2^40; common-ancestor: every list of n stored-or-unknown hashes (quick k=3 n<=2, thorough k=4 n=2 and k=3 n=3; at k=5 the model meets an order-dependent read of an unordered CTE result and reports unsupported, so k=5 is not registered), on stores without a parent stored after its child", "no state outside the store: for each of the 9 routes under /api/v1/chain (enumerated from the routing table; auth off) one arbitrary request, then one arbitrary new header ingested through the same process, then the same request again - its answer (status and documents) equals that of a freshly assembled application over the same database; k=1 for every route and k=2 for the merkle-root listing and tips (quick), k=2 for every route and k=3 for those two (thorough)"},
 		Outside: []string{"JSON encoding of the response structs (field names / tags); the struct-level mapping is checked for every header with a timestamp within uint32 seconds", "PostgreSQL", "tips: the row order of the UNION is unspecified, the result is compared as a set"},
 		Stubs:   []string{"zerolog calls have no effect", "sqlx over the sqlm model"},
 	})
 	add(CheckDef{
 		ID: "C08", Level: "model_checking",
 		Runs: []HRun{
-			{Pkg: "internal/zzverif/c08", Func: "HarnessPage", Quick: [][]int64{{2}, {3}}, Thorough: [][]int64{{4}, {5}, {6}},
+			{Pkg: "internal/zzverif/c08", Func: "HarnessPage", Quick: [][]int64{{2}, {3}, {4}}, Thorough: [][]int64{{4}, {5}, {6}},
 				Labels: []string{"C08/ok-iff-key-empty-or-longest", "C08/page-length", "C08/ascending-consecutive", "C08/only-longest-chain-rows", "C08/last-key", "C08/unknown-key-404", "C08/non-longest-key-409"}},
 			{Pkg: "internal/zzverif/c08", Func: "HarnessPageAfterAdd", Quick: [][]int64{{2}}, Thorough: [][]int64{{3}, {4}},
 				Labels: []string{"C08/ok-iff-key-empty-or-longest", "C08/page-length", "C08/ascending-consecutive", "C08/last-key"}},
 		},
-		Bounds:  []string{"arbitrary INV-H store of k rows with pairwise distinct merkle roots (quick k<=3, thorough k<=6); page size any int >= 0; key any string", "walk interleaved with ingestion: page request, one arbitrary Add (incl. reorganisations), page request with an arbitrary (possibly identical) key, from stores of k rows (quick k=2, thorough k<=4)"},
+		Bounds:  []string{"arbitrary INV-H store of k rows with pairwise distinct merkle roots (quick k<=4 for one page, k=2 for the page-after-ingestion composition; thorough k<=6 / k<=4); page size any int >= 0; key any string", "walk interleaved with ingestion: page request, one arbitrary Add (incl. reorganisations), page request with an arbitrary (possibly identical) key, from stores of k rows (quick k=2, thorough k<=4)"},
 		Outside: []string{"the walk over several pages follows from the page lemma by induction on pages (argument, not a solver result)", "parsing of batchSize in the handler (C16)", "PostgreSQL"},
 		Stubs:   []string{"zerolog calls have no effect", "sqlx over the sqlm model"},
 	})
@@ -79,7 +79,7 @@ func checks() map[string]CheckDef {
 		Runs: []HRun{
 			{Pkg: "internal/zzverif/c13", Func: "HarnessLocator", Unwind: 100, Labels: []string{"C13/locator-starts-at-tip", "C13/locator-ends-at-genesis", "C13/locator-strictly-descending", "C13/locator-step-pattern", "C13/locator-length-bound", "C13/locator-only-longest-chain-hashes"}},
 			{Pkg: "internal/zzverif/c13", Func: "HarnessRange", Labels: []string{"C13/range-bounds", "C13/range-at-most-2000", "C13/range-nothing-when-stop-not-ahead"}},
-			{Pkg: "internal/zzverif/c13", Func: "HarnessGetHeaders", Quick: [][]int64{{3, 1}, {3, 2}}, Thorough: [][]int64{{4, 2}, {5, 2}, {4, 3}},
+			{Pkg: "internal/zzverif/c13", Func: "HarnessGetHeaders", Quick: [][]int64{{3, 1}, {3, 2}, {4, 2}}, Thorough: [][]int64{{4, 2}, {5, 2}, {4, 3}},
 				Labels: []string{"C13/answer-length", "C13/ascending-longest-chain-headers-after-start", "C13/nothing-when-stop-at-or-below-start"}},
 		},
 		Bounds:  []string{"locator algorithm: EVERY tip height 0..2^31-1 over an abstract longest chain (one header per height)", "range arithmetic: every start/stop height", "end to end: arbitrary INV-H store of k rows (quick k<=3, thorough k<=5), locators of 0..3 arbitrary hashes, arbitrary stop hash"},
